@@ -427,7 +427,10 @@ fn parse_str_to_newer_args(input: &str) -> Option<(String, String)> {
 /// Creates a file if it doesn't exist.
 /// If it does exist, it will be overwritten.
 fn get_or_create_file(path: &str) -> Result<File, Box<dyn Error>> {
-    let file = File::create(path)?;
+    File::create(path)?;
+    // Several actions may name the same file: in append mode their records
+    // follow one another instead of overwriting each other.
+    let file = File::options().append(true).open(path)?;
     Ok(file)
 }
 
